@@ -51,6 +51,13 @@ func vpC01GenCfg(t *rapid.T) vpC01Cfg {
 
 // vpC01Run serves the stream and returns the dispatch log and everything the server wrote.
 func vpC01Run(stream []byte, plan []int, cfg vpC01Cfg) (disp []vpC01Dispatch, out []byte, returned bool) {
+	disp, out, _, returned = vpC01RunWire(stream, plan, cfg, false)
+	return disp, out, returned
+}
+
+// vpC01RunWire: with stayOpen the client does not half-close after the stream; state says whether the
+// server closed the connection itself or went idle (waiting for more input) once everything was delivered.
+func vpC01RunWire(stream []byte, plan []int, cfg vpC01Cfg, stayOpen bool) (disp []vpC01Dispatch, out []byte, state string, returned bool) {
 	var mu sync.Mutex
 	s := &Server{
 		Handler: func(ctx *RequestCtx) {
@@ -80,11 +87,30 @@ func vpC01Run(stream []byte, plan []int, cfg vpC01Cfg) (disp []vpC01Dispatch, ou
 		Logger:                        vpNopLogger{},
 		NoDefaultServerHeader:         true,
 	}
-	w := vpNewWire(stream, plan, true)
-	returned, _ = vpServeWire(s, w, 20*time.Second)
+	w := vpNewWire(stream, plan, !stayOpen)
+	if stayOpen {
+		done := make(chan struct{})
+		go func() { s.ServeConn(w); close(done) }() //nolint:errcheck
+		state = w.WaitIdleOrClosed(20 * time.Second)
+		out = w.Out()
+		w.FinishInput()
+		select {
+		case <-done:
+			returned = true
+		case <-time.After(20 * time.Second):
+			w.Close()
+			<-done
+		}
+		if state != "idle" {
+			out = w.Out()
+		}
+	} else {
+		returned, _ = vpServeWire(s, w, 20*time.Second)
+		out = w.Out()
+	}
 	mu.Lock()
 	defer mu.Unlock()
-	return append([]vpC01Dispatch(nil), disp...), w.Out(), returned
+	return append([]vpC01Dispatch(nil), disp...), out, state, returned
 }
 
 // vpC01Oracle returns "" when the dispatch log is consistent with the reference framing.
@@ -142,6 +168,9 @@ func vpC01Oracle(stream []byte, disp []vpC01Dispatch, out []byte) (string, []*vp
 		body, err := io.ReadAll(resp.Body)
 		if err != nil {
 			return fmt.Sprintf("response #%d body: %v", n, err), ref
+		}
+		if resp.StatusCode == 100 {
+			continue // interim response to Expect: 100-continue
 		}
 		if n < len(disp) {
 			if resp.Header.Get("X-Ord") != strconv.Itoa(n) {
@@ -249,7 +278,7 @@ func TestVP_C01_Pipelines(t *testing.T) {
 		n := rapid.IntRange(1, 5).Draw(t, "n")
 		cfg := vpC01GenCfg(t)
 		adv := rapid.SampledFrom([]int{0, 30, 60, 100}).Draw(t, "advpct")
-		o := vpGenOpts{Adversarial: adv, AllowClose: true, AllowMultipart: true, MaxBody: 200, LongHeader: cfg.ReadBuf}
+		o := vpGenOpts{Adversarial: adv, AllowClose: true, AllowExpect: true, AllowMultipart: true, MaxBody: 200, LongHeader: cfg.ReadBuf}
 		var stream []byte
 		var labels []string
 		for i := 0; i < n; i++ {
@@ -284,5 +313,67 @@ func TestVP_C01_Pipelines(t *testing.T) {
 		}
 		plan := vpGenSplit(t, len(stream), vpHotOffsets(stream, 40))
 		vpC01Case(t, stream, labels, n, plan, cfg)
+	})
+}
+
+// TestVP_C01_Progress: streams of plain valid requests (no adversarial operator; Expect: 100-continue,
+// multipart bodies and bodies larger than the read buffer allowed) on a connection the client keeps
+// open. "After each request the server continues at the exact next message boundary or closes": so
+// when everything sent has been delivered, either every request was dispatched (in order, with its own
+// method, target and body - checked by the common oracle) or the server has closed the connection. A
+// server that sits idle waiting for input while complete requests it was sent were never dispatched
+// has lost its place in the stream.
+func TestVP_C01_Progress(t *testing.T) {
+	rapid.Check(t, func(t *rapid.T) {
+		n := rapid.IntRange(2, 6).Draw(t, "n")
+		cfg := vpC01GenCfg(t)
+		cfg.GetOnly = false
+		o := vpGenOpts{AllowExpect: true, AllowMultipart: true, MaxBody: rapid.SampledFrom([]int{50, 200, 1500, 6000}).Draw(t, "maxbody")}
+		var stream []byte
+		var targets []string
+		expect := 0
+		for i := 0; i < n; i++ {
+			r := vpGenRequest(t, i, o)
+			stream = append(stream, r.Raw...)
+			targets = append(targets, r.Method+" "+r.Target)
+			for _, l := range r.Labels {
+				if l == "expect-100" {
+					expect++
+				}
+			}
+		}
+		plan := vpGenSplit(t, len(stream), vpHotOffsets(stream, 40))
+		disp, out, state, returned := vpC01RunWire(stream, plan, cfg, true)
+		desc := func() string {
+			return fmt.Sprintf("requests=%q cfg=%s plan=%v state=%s dispatched=%d out=%s\nstream=%q", targets, cfg, plan, state, len(disp), vpQuote(out, 300), stream)
+		}
+		if !returned {
+			t.Fatalf("ServeConn did not return within 20s after client EOF\n%s", desc())
+		}
+		if state == "timeout" {
+			t.Fatalf("server neither closed nor went idle within 20s\n%s", desc())
+		}
+		msg, ref := vpC01Oracle(stream, disp, out)
+		if msg != "" {
+			t.Fatalf("C01 violation: %s\n%s", msg, vpC01Describe(stream, plan, cfg, disp, ref))
+		}
+		complete := 0
+		for _, r := range ref {
+			if r.Unknown || r.MustBeLast || !r.Complete {
+				break
+			}
+			complete++
+		}
+		if state == "idle" && len(disp) < complete {
+			t.Fatalf("C01 violation: %d complete requests were sent, %d were dispatched, and the server is waiting for more input on the open connection: it did not continue at the next message boundary (next undispatched: %s %q at offset %d)\n%s",
+				complete, len(disp), ref[len(disp)].Method, ref[len(disp)].Target, ref[len(disp)].Start, vpC01Describe(stream, plan, cfg, disp, ref))
+		}
+		class := fmt.Sprintf("progress/%s/dispatched-all=%v", state, len(disp) == complete)
+		if expect > 0 {
+			class += "/with-expect"
+		}
+		vpCase(class, len(disp) >= 2, string(stream)+fmt.Sprint(plan)+cfg.String(), func() string {
+			return fmt.Sprintf("requests=%q cfg=%s plan=%v state=%s dispatched=%d of %d", targets, cfg, plan, state, len(disp), complete)
+		})
 	})
 }
